@@ -226,7 +226,7 @@ def tr_adaptive_line():
     b = _body(fn)
     s = _srcs(b)
     head = ['p, t = (self.doflocs, self.t)',
-            'mid = range(len(marked)) + np.max(t) + 1',
+            'MID',
             'nonmarked = np.setdiff1d(np.arange(t.shape[1]), marked)',
             'newp = np.hstack((p, p[:, t[:, marked]].mean(1)))',
             'newt = np.vstack((t[0, marked], mid))',
@@ -238,6 +238,12 @@ def tr_adaptive_line():
             del s[pos]
             del b[pos]
             break
+    midforms = {'mid = np.arange(len(marked), dtype=np.int32) + p.shape[1]': 'npoints',
+                'mid = range(len(marked)) + np.max(t) + 1': 'maxt'}
+    if len(s) < 6 or s[1] not in midforms:
+        raise TranslateError('MeshLine1._adaptive: midpoint numbers: ' + repr(s[1:2]))
+    midbase = midforms[s[1]]
+    s[1] = 'MID'
     if s[:6] != head:
         raise TranslateError('MeshLine1._adaptive head: ' + repr(s[:6]))
     rest = b[6:]
@@ -262,7 +268,8 @@ def tr_adaptive_line():
                 and _srcs(ifn.body) == want):
             raise TranslateError('MeshLine1._adaptive: subdomain map changed')
         sub = 'own'
-    return {'subdomains': sub, 'boundaries': 'kept' if '_boundaries' not in kw else t2.src(kw['_boundaries']), 'unique': uniq}
+    return {'subdomains': sub, 'boundaries': 'kept' if '_boundaries' not in kw else t2.src(kw['_boundaries']), 'unique': uniq,
+            'midbase': midbase}
 
 
 # ----------------------------------------------------------------------------- MeshTet1._adaptive (bisection step only)
@@ -291,6 +298,13 @@ def tr_adaptive_tet():
             else:
                 raise TranslateError('tet: template entry ' + g)
         return out
+    sm = t2.src(t2.find_def(t2.parse(TET), '_adaptive_sort_mesh', 'MeshTet1'))
+    if 'noise = 1e-10 * np.max(np.abs(p))' in sm and 'p = p.copy() + noise * ' in sm:
+        noise = 'relative'
+    elif 'p = p.copy() + 1e-10 * ' in sm:
+        noise = 'absolute'       # lost for large coordinates (N52)
+    else:
+        raise TranslateError('tet: tie-breaking noise of _adaptive_sort_mesh')
     ret = _body(fn)[-1]
     kw = replace_kwargs(ret.value) if isinstance(ret, ast.Return) else None
     if kw is None:
@@ -305,7 +319,7 @@ def tr_adaptive_tet():
         for nd in need:
             if nd not in src:
                 raise TranslateError('tet: parent tracking: ' + nd)
-    return {'templates': [refs(m1), refs(m2)], 'subdomains': sub, 'boundaries': bnd}
+    return {'templates': [refs(m1), refs(m2)], 'subdomains': sub, 'boundaries': bnd, 'noise': noise}
 
 
 def tr_second():
@@ -379,6 +393,8 @@ def gen_text():
     L.append(f'Definition gen13_tri_rfacets : list (list nat) := {nats(R.RefTri.facets)}.')
     L.append(f'Definition gen13_tet_redges : list (list nat) := {nats(R.RefTet.edges)}.')
     L.append(f'Definition gen13_tet_rfacets : list (list nat) := {nats(R.RefTet.facets)}.')
+    L.append('(* MeshLine1._adaptive: number of the first new midpoint *)\nDefinition gen_line_mid_base (p : list point) (t : list (list nat)) : nat := '
+             + ('length p.' if line['midbase'] == 'npoints' else 'S (tab_max t).'))
     L.append('(* MeshLine1._adaptive starts with marked = np.unique(marked)? *)\nDefinition gen_line_unique : bool := %s.' % ('true' if line['unique'] else 'false'))
     for c, nm in (('MeshTri2', 'tri2'), ('MeshTet2', 'tet2')):
         L.append(f'(* {c}._adaptive *)\nDefinition gen_{nm}_adaptive_via : via2 := '
